@@ -10,7 +10,10 @@ use crate::{
     logging,
 };
 use std::cmp::min;
+#[cfg(not(sentinel_verif))]
 use std::sync::{atomic::Ordering, Arc, Mutex, Weak};
+#[cfg(sentinel_verif)]
+use sentinel_verif_rt::sync::{atomic::Ordering, Arc, Mutex, Weak};
 
 /// Traffic Shaping `Checker` performs checking according to current metrics and the traffic
 /// shaping strategy, then yield the token result.
